@@ -359,3 +359,46 @@ func VerifH14c() {
 	}
 	nd.Reach("H14c.end")
 }
+
+// VerifH13c: a write whose metadata record cannot be stored (core.Store with a failing storage
+// write), as an inductive step from an arbitrary invariant state: the call fails, nothing changes
+// for any reader, and the invariant - including "the pools hold nothing that is still in use" -
+// holds afterwards, so that the transaction stores handed to later transactions are their own.
+// Then the writer's transaction ends and the two other actors write: still independent.
+func VerifH13c() {
+	s := verifBuildState(3)
+	t := nd.Choice("writer", 3)
+	if t != 0 && !s.begun[t] {
+		nd.Assume(false)
+	}
+	k := verifKeys[nd.Choice("key", 2)]
+	s.jump()
+	s.repo.failSet = true
+	err := s.u.Store(s.ctx, model.File{Key: k, TxId: verifTxIds[t], ContentId: "failed-write"})
+	s.repo.failSet = false
+	nd.Assert(err != nil, "H13c.failure-reported")
+	s.checkInv("H13c.inv")
+	s.checkReads("H13c.post")
+	if t != 0 {
+		// the writer's transaction ends; what it leaves in the pools is handed out again
+		var rest []verifVer
+		for _, v := range s.vs {
+			if v.owner != t {
+				rest = append(rest, v)
+			}
+		}
+		_ = s.u.DeleteTx(s.ctx, verifTxIds[t])
+		s.vs = rest
+		s.begun[t] = false
+		s.checkInv("H13c.ended.inv")
+		o := 3 - t // the other transaction
+		if !s.begun[o] {
+			s.beginTx(o)
+		}
+		s.store(o, "a")
+		s.store(0, "b")
+		s.checkInv("H13c.later.inv")
+		s.checkReads("H13c.later")
+	}
+	nd.Reach("H13c.end")
+}
